@@ -199,3 +199,27 @@ def lshape(draw, max_rank=2, extents=(1, 2, 3), max_items=8):
 
 def regime_key(reg):
     return ",".join("%s=%s" % kv for kv in sorted(reg.items()))
+
+
+def valid_group(ltype, X, dtype):
+    """unit quaternion up to rounding to the dtype, positive finite scale, finite translation"""
+    X = np.asarray(X, dtype=np.float64)
+    if not np.all(np.isfinite(X)):
+        return False
+    o = 3 if ltype in ("SE3", "Sim3") else 0
+    q = X[o:o + 4]
+    if abs(float(np.linalg.norm(q)) - 1.0) > 4 * EPS[dtype]:
+        return False
+    if ltype in ("RxSO3", "Sim3") and not (X[-1] > 0):
+        return False
+    return True
+
+
+def valid_groups(ltype, Xs, dtype):
+    return all(valid_group(ltype, X, dtype) for X in Xs)
+
+
+def in_dtype(vals, dtype):
+    """all floats exactly representable in the dtype"""
+    a = np.asarray(vals, dtype=np.float64)
+    return bool(np.all(a == a.astype(np.float32 if dtype == "float32" else np.float64).astype(np.float64)))
